@@ -13,6 +13,29 @@ open StorageModel StorageModel.Driver StorageModel.C04
 def parseFV (w : String) : Option FV :=
   if w = "~" then some none else (Bytes.ofHex w).map some
 
+/-- `<id>:<owner>:<boss>:<dep>:<tag>[:<mentor>:<guard>]` -/
+def parseCreateC (c : Child) : List String → Option Op
+  | [id, o, b, d, t] => do
+    pure (Op.createC c (← Bytes.ofHex id) { owner := ← parseFV o, boss := some (← Bytes.ofHex b), dep := ← parseFV d }
+      { tag := ← parseFV t })
+  | [id, o, b, d, t, m, g] => do
+    pure (Op.createC c (← Bytes.ofHex id) { owner := ← parseFV o, boss := some (← Bytes.ofHex b), dep := ← parseFV d }
+      { tag := ← parseFV t, m := ← parseFV m, g := ← parseFV g })
+  | _ => none
+
+/-- `<id>:<mask>:<owner>:<boss>:<dep>:<tag>[:<mentor>:<guard>]`, mask bits: 1 owner, 2 boss, 4 dep, 8 nil checker
+    (every field), 16 tag, 32 mentor, 64 guard -/
+def parseUpdateC (c : Child) (l : List String) : Option Op := do
+  let (id, m, o, b, d, t, mm, g) ← (match l with
+    | [id, m, o, b, d, t] => some (id, m, o, b, d, t, "~", "~")
+    | [id, m, o, b, d, t, mm, g] => some (id, m, o, b, d, t, mm, g)
+    | _ => none)
+  let m ← m.toNat?
+  let all := (m / 8) % 2 = 1
+  let bit := fun (k : Nat) => all || (m / k) % 2 = 1
+  pure (Op.updateC c (← Bytes.ofHex id) { owner := ← parseFV o, boss := some (← Bytes.ofHex b), dep := ← parseFV d }
+    { tag := ← parseFV t, m := ← parseFV mm, g := ← parseFV g } (bit 1) (bit 2) (bit 4) (bit 16) (bit 32) (bit 64))
+
 def parseOp (tok : String) : Option Op :=
   match tok.splitOn ":" with
   | ["cb", id] => (Bytes.ofHex id).map Op.createB
@@ -31,23 +54,11 @@ def parseOp (tok : String) : Option Op :=
     let all := m ≥ 8
     pure (Op.updateA id { owner := o, boss := some b, dep := d }
       (all || m % 2 = 1) (all || (m / 2) % 2 = 1) (all || (m / 4) % 2 = 1))
-  | ["cc", id, o, b, d, t] => do
-    let id ← Bytes.ofHex id
-    let o ← parseFV o
-    let b ← Bytes.ofHex b
-    let d ← parseFV d
-    let t ← parseFV t
-    pure (Op.createC id { owner := o, boss := some b, dep := d } t)
-  | ["uc", id, m, o, b, d, t] => do
-    let id ← Bytes.ofHex id
-    let m ← m.toNat?
-    let o ← parseFV o
-    let b ← Bytes.ofHex b
-    let d ← parseFV d
-    let t ← parseFV t
-    let all := (m / 8) % 2 = 1
-    pure (Op.updateC id { owner := o, boss := some b, dep := d } t
-      (all || m % 2 = 1) (all || (m / 2) % 2 = 1) (all || (m / 4) % 2 = 1) (all || (m / 16) % 2 = 1))
+  | "cc" :: rest => parseCreateC .c1 rest
+  | "c2" :: rest => parseCreateC .c2 rest
+  | "uc" :: rest => parseUpdateC .c1 rest
+  | "u2" :: rest => parseUpdateC .c2 rest
+  | ["d2", id] => (Bytes.ofHex id).map Op.deleteC
   | ["dc", id] => (Bytes.ofHex id).map Op.deleteC
   | ["da", id] => (Bytes.ofHex id).map Op.deleteA
   | ["db", id] => (Bytes.ofHex id).map Op.deleteB
@@ -57,8 +68,10 @@ def parseTx (tok : String) : Option (List Op) := (tok.splitOn ",").mapM parseOp
 
 def parseVariant (w : String) : Option Schema := do
   let v ← w.toNat?
-  if v > 7 then none
-  else pure { depCascade := v % 2 = 1, depNullable := (v / 2) % 2 = 1, depFirst := (v / 4) % 2 = 1 }
+  if v > 255 then none
+  else pure { depCascade := v % 2 = 1, depNullable := (v / 2) % 2 = 1, depFirst := (v / 4) % 2 = 1,
+              idx1 := (v / 8) % 2 = 1, idx2 := (v / 16) % 2 = 1, fk1 := (v / 32) % 2 = 1, fk2 := (v / 64) % 2 = 1,
+              c2First := (v / 128) % 2 = 1 }
 
 def obsToken (verbose : Bool) (res : Option (Nat × Err)) (fine : Option String) (coarse : String)
     (nA nB : Nat) : String :=
@@ -74,7 +87,7 @@ def runModel (verbose : Bool) (σ : Schema) (txs : List (List Op)) : List String
 def runSpec (verbose : Bool) (σ : Schema) (txs : List (List Op)) : List String :=
   (txs.foldl (fun (acc : SSt × List String) tx =>
     let (s', r) := specRunTx σ acc.1 tx
-    (s', obsToken verbose r none (coarseText (derive s')) s'.as.length s'.bs.length :: acc.2)) ({}, [])).2.reverse
+    (s', obsToken verbose r none (coarseText (deriveσ σ s')) s'.as.length s'.bs.length :: acc.2)) ({}, [])).2.reverse
 
 def stepWith (spec : Bool) (line : String) : String :=
   match (splitSp line).filter (· ≠ "") with
